@@ -49,6 +49,7 @@ inductive Expr
   | deref (a : Expr)
   | addr (a : Expr)                               -- &lvalue
   | newE (t : Ty)
+  | nilE (t : Ty)                                 -- `nil` of a pointer/slice/map/func/interface type
   | structLit (t : Ty) (fs : List Expr)           -- all fields, in order
   | arrLit (t : Ty) (n : Nat) (es : List Expr)    -- [n]T{...} (missing = zero)
   | sliceLit (t : Ty) (es : List Expr)            -- []T{...}
@@ -78,6 +79,7 @@ inductive Stmt
   | incDec (inc : Bool) (lv : Expr)
   | exprS (e : Expr)
   | print (es : List Expr)
+  | deleteS (m k : Expr)
   | ifS (init : Option Stmt) (c : Expr) (th el : List Stmt)
   | forS (label : Option String) (init : Option Stmt) (cond : Option Expr) (post : Option Stmt) (body : List Stmt)
   | rangeS (label : Option String) (kind : RangeKind) (k v : Option String) (e : Expr) (body : List Stmt)
@@ -108,7 +110,7 @@ structure Program where
   funcs : Array FuncDecl                 -- top-level functions and hoisted literals
   globals : List (String × Ty × Option Expr)
   /-- index of the entry function in `funcs` -/
-  main : Nat
+  entry : Nat
   deriving Repr, Inhabited
 
 end GnoVerif.C04
